@@ -4,11 +4,15 @@ NetworkTables is accessed independently of the code under test through typed pub
 usage: tun_driver.py --out FILE --seed S --n N [--first-id K]   |   tun_driver.py --out FILE --scripts FILE
 """
 import argparse
+import importlib
 import itertools
 import json
+import logging
 import os
 import random
+import shutil
 import sys
+import typing
 from collections.abc import Sequence
 
 REPO = os.environ.get("VERIF_REPO", "/repo")
@@ -16,6 +20,8 @@ sys.path.insert(0, REPO)
 import ntcore  # noqa: E402
 from wpimath.geometry import Translation2d  # noqa: E402
 from magicbot.magic_tunable import setup_tunables, tunable  # noqa: E402
+
+logging.disable(logging.CRITICAL)
 
 T2 = Translation2d
 DOM = {
@@ -25,14 +31,21 @@ DOM = {
     "bool[]": [[True, False], [False], [True, True, True]], "str[]": [["a"], ["b", "c"], ["", "d"]],
     "struct[]": [[T2(1, 2)], [T2(0, 0), T2(1, 1)], [T2(2, 2), T2(3, 3), T2(4, 4)]],
     "empty_int[]": [[], [3], [4, 5, 6]], "empty_str[]": [[], ["b", "c"], ["", "d"]],
+    # the type hint is wider than the default's own type: the hint decides (x: float = tunable(1), tunable[float](1),
+    # ClassVar[tunable[float]], x: Sequence[float] = tunable([1, 2]))
+    "hint_float": [1, 2.25, -0.5], "hint_float_g": [1, 2.25, -0.5], "hint_float_cv": [1, 2.25, -0.5],
+    "hint_float[]": [[1, 2], [2.5], [0.25, 0.5, 0.75]],
 }
+HINTED = {"hint_float": "float", "hint_float_g": "float", "hint_float_cv": "float", "hint_float[]": "float[]"}
 TOPIC = {
     "bool": ntcore.BooleanTopic, "int": ntcore.IntegerTopic, "float": ntcore.DoubleTopic, "str": ntcore.StringTopic,
     "bytes": ntcore.RawTopic, "int[]": ntcore.IntegerArrayTopic, "float[]": ntcore.DoubleArrayTopic,
     "bool[]": ntcore.BooleanArrayTopic, "str[]": ntcore.StringArrayTopic, "empty_int[]": ntcore.IntegerArrayTopic,
-    "empty_str[]": ntcore.StringArrayTopic,
+    "empty_str[]": ntcore.StringArrayTopic, "hint_float": ntcore.DoubleTopic, "hint_float_g": ntcore.DoubleTopic,
+    "hint_float_cv": ntcore.DoubleTopic, "hint_float[]": ntcore.DoubleArrayTopic,
 }
 TYPES = list(DOM)
+NOREDECL = {"sub": "", "type": "none", "wd": False}      # (JSON null cannot be read by TLC's Json module)
 _uid = itertools.count()
 
 
@@ -45,6 +58,15 @@ def doc_path(kind, name, sub, attr):
 
 
 def vi_of(ty, v):
+    if ty in HINTED:
+        for i, d in enumerate(DOM[ty]):
+            if isinstance(d, list):
+                if isinstance(v, (list, tuple)) and len(v) == len(d) and all(type(x) is float for x in v) \
+                        and [float(x) for x in d] == list(v):
+                    return i
+            elif type(v) is float and v == float(d):
+                return i
+        return -2
     for i, d in enumerate(DOM[ty]):
         try:
             if isinstance(v, (list, tuple)):
@@ -60,43 +82,136 @@ def vi_of(ty, v):
     return -2
 
 
+MODE_MOD_SRC = """
+import sys
+_drv = sys.modules["__main__"]
+Mode = _drv.AUTO_CLASSES[%d]
+"""
+AUTO_CLASSES = []
+
+
+def write_auto_package(root, n):
+    for m in [k for k in sys.modules if k == "autonomous" or k.startswith("autonomous.")]:
+        del sys.modules[m]
+    while root in sys.path:
+        sys.path.remove(root)
+    shutil.rmtree(root, ignore_errors=True)
+    if n:
+        pk = os.path.join(root, "autonomous")
+        os.makedirs(pk)
+        open(os.path.join(pk, "__init__.py"), "w").close()
+        for i in range(n):
+            with open(os.path.join(pk, "mode%d.py" % i), "w") as f:
+                f.write(MODE_MOD_SRC % i)
+        sys.path.insert(0, root)
+    importlib.invalidate_caches()
+
+
 class World:
     def __init__(self, shape):
         self.shape = shape
         self.uid = next(_uid)
         self.inst = ntcore.NetworkTableInstance.getDefault()
         self.pubs = {}
-        ns = {}
-        ann = {}
-        for tu in shape["tunables"]:
+        self.insitu = bool(shape.get("insitu"))
+        # in situ the robot's tunables live under the fixed prefix /robot, and NetworkTables topics persist inside
+        # the process: attribute names are made unique per trace there
+        sfx = "_%d_%d" % (os.getpid(), self.uid) if self.insitu else ""
+        self.attrs = [tu["attr"] + sfx for tu in shape["tunables"]]
+        layers = shape.get("layers") or [1] * len(shape["tunables"])       # 0: declared on a base class
+        redecl = shape.get("redecl") or [NOREDECL] * len(shape["tunables"])    # base-class declaration that is overridden
+        ns, ann, base_ns, base_ann = {}, {}, {}, {}
+        for tu, attr, ly, rd in zip(shape["tunables"], self.attrs, layers, redecl):
             ty = tu["type"]
             d = DOM[ty][0]
             kw = {"writeDefault": bool(tu["wd"])}
             if tu["sub"]:
                 kw["subtable"] = tu["sub"]
+            tns, tann = (base_ns, base_ann) if ly == 0 else (ns, ann)
             if ty == "empty_int[]":
-                ns[tu["attr"]] = tunable[Sequence[int]]([], **kw)
+                tns[attr] = tunable[Sequence[int]]([], **kw)
             elif ty == "empty_str[]":
-                ann[tu["attr"]] = tunable[Sequence[str]]
-                ns[tu["attr"]] = tunable([], **kw)
+                tann[attr] = tunable[Sequence[str]]
+                tns[attr] = tunable([], **kw)
+            elif ty == "hint_float":
+                tann[attr] = float
+                tns[attr] = tunable(d, **kw)
+            elif ty == "hint_float_g":
+                tns[attr] = tunable[float](d, **kw)
+            elif ty == "hint_float_cv":
+                tann[attr] = typing.ClassVar[tunable[float]]
+                tns[attr] = tunable(d, **kw)
+            elif ty == "hint_float[]":
+                tann[attr] = Sequence[float]
+                tns[attr] = tunable(list(d), **kw)
             else:
-                ns[tu["attr"]] = tunable(d, **kw)
+                tns[attr] = tunable(d, **kw)
+            if rd["type"] != "none" and ly != 0:
+                # the base class declares a tunable of the same name with another default / writeDefault / subtable /
+                # type; the subclass's declaration is the one that counts
+                rty = rd["type"]
+                rkw = {"writeDefault": bool(rd["wd"])}
+                if rd["sub"]:
+                    rkw["subtable"] = rd["sub"]
+                base_ns[attr] = tunable(DOM[rty][1] if not rty.startswith("empty") else DOM[rty][1], **rkw)
         ns["__annotations__"] = ann
+        ns["execute"] = lambda self_: None
         if shape.get("falsy_owner"):
             ns["__len__"] = lambda self_: 0          # an owner object that is falsy (an empty container, say)
-        self.cls = type("TunOwner%d" % self.uid, (), ns)
+        bases = ()
+        if base_ns:
+            base_ns["__annotations__"] = base_ann
+            bases = (type("TunBase%d" % self.uid, (), base_ns),)
+        self.cls = type("TunOwner%d" % self.uid, bases, ns)
         # names are made unique per trace: NetworkTables topics persist inside the process
         self.names = [x["name"] if x["kind"] == "robot" else "%s_%d_%d" % (x["name"], os.getpid(), self.uid)
                       for x in shape["insts"]]
         self.kinds = [x["kind"] for x in shape["insts"]]
-        if "robot" in self.kinds:
+        if "robot" in self.kinds and not self.insitu:
             self.robot_name = "robot_%d_%d" % (os.getpid(), self.uid)
             self.names = [self.robot_name if k == "robot" else n for k, n in zip(self.kinds, self.names)]
-        self.objs = [self.cls() for _ in shape["insts"]]
+        self.setup_done = None
+        if not self.insitu:
+            self.objs = [self.cls() for _ in shape["insts"]]
+        else:
+            self.build_robot()
+
+    def build_robot(self):
+        """in situ: the owners are components / autonomous modes / the robot of a real MagicRobot, and it is
+        robotInit() that binds them (all of them, at the first 'setup' event)"""
+        import magicbot
+        del AUTO_CLASSES[:]
+        rann = {}
+        for k, n in zip(self.kinds, self.names):
+            if k == "components":
+                rann[n] = self.cls
+            elif k == "autonomous":
+                def noop(self_, *a):
+                    pass
+                AUTO_CLASSES.append(type("Mode_%s" % n, (self.cls,), {
+                    "MODE_NAME": n, "on_enable": noop, "on_iteration": noop, "on_disable": noop}))
+        write_auto_package(os.path.join(os.getcwd(), "autopkg_tun"), len(AUTO_CLASSES))
+        rbases = (magicbot.MagicRobot, self.cls) if "robot" in self.kinds else (magicbot.MagicRobot,)
+        self.R = type("TunRobot%d" % self.uid, rbases, {"__annotations__": rann, "createObjects": lambda self_: None})
+        self.robot = self.R()
+        self.objs = [None] * len(self.kinds)
+
+    def robot_init(self):
+        if self.setup_done is not None:
+            return self.setup_done
+        try:
+            self.robot.robotInit()
+            modes = self.robot._automodes.modes
+            for j, (k, n) in enumerate(zip(self.kinds, self.names)):
+                self.objs[j] = self.robot if k == "robot" else getattr(self.robot, n) if k == "components" else modes[n]
+            self.setup_done = {"err": False}
+        except Exception as e:  # noqa
+            self.setup_done = {"err": True, "msg": "%s: %s" % (type(e).__name__, e)}
+        return self.setup_done
 
     def path(self, i, t):
         tu = self.shape["tunables"][t - 1]
-        return doc_path(self.kinds[i - 1], self.names[i - 1], tu["sub"], tu["attr"])
+        return doc_path(self.kinds[i - 1], self.names[i - 1], tu["sub"], self.attrs[t - 1])
 
     def publisher(self, i, t):
         key = (i, t)
@@ -135,6 +250,8 @@ class World:
         i = ev["i"]
         if k == "setup":
             kind = self.kinds[i - 1]
+            if self.insitu:
+                return dict(self.robot_init())
             try:
                 if kind == "robot":
                     setup_tunables(self.objs[i - 1], self.names[i - 1], None)
@@ -154,13 +271,13 @@ class World:
                 return {"err": True, "msg": "%s: %s" % (type(e).__name__, e)}
         if k == "pyw":
             try:
-                setattr(self.objs[i - 1], tu["attr"], DOM[ty][ev["vi"]])
+                setattr(self.objs[i - 1], self.attrs[t - 1], DOM[ty][ev["vi"]])
                 return {"err": False}
             except Exception as e:  # noqa
                 return {"err": True, "msg": "%s: %s" % (type(e).__name__, e)}
         if k == "pyr":
             try:
-                v = getattr(self.objs[i - 1], tu["attr"])
+                v = getattr(self.objs[i - 1], self.attrs[t - 1])
             except Exception as e:  # noqa
                 return {"type": "raised", "vi": -3, "msg": "%s: %s" % (type(e).__name__, e)}
             topic = self.inst.getTopic(self.path(i, t))
@@ -179,6 +296,7 @@ def gen_shape(rng):
     attrs = rng.sample(["x", "y", "speed", "name", "k"], nt)
     tun = [{"attr": a, "sub": rng.choice(["", "", "sub", a]), "type": rng.choice(TYPES), "wd": rng.random() < 0.5}
            for a in attrs]
+    insitu = rng.random() < 0.35
     ni = rng.choice([1, 2, 3])
     insts = []
     for j in range(ni):
@@ -186,13 +304,33 @@ def gen_shape(rng):
         if kind == "robot" and any(x["kind"] == "robot" for x in insts):
             kind = "components"
         insts.append({"kind": kind, "name": "robot" if kind == "robot" else rng.choice(["n1", "n2", "a"]) + str(j)})
-    return {"tunables": tun, "insts": insts, "falsy_owner": rng.random() < 0.25}
+    # conformance-only details: which tunables are declared on a base class, and base-class declarations of the same
+    # name that the owner class overrides (other default / writeDefault / subtable / type)
+    layers = [rng.choice([0, 1, 1]) for _ in tun]
+    redecl = [({"sub": rng.choice(["", tu["sub"], "other"]), "type": rng.choice([tu["type"], tu["type"], "int", "str"]),
+                "wd": rng.random() < 0.5} if ly == 1 and rng.random() < 0.3 else dict(NOREDECL)) for tu, ly in zip(tun, layers)]
+    for r in redecl:
+        if r["type"] in HINTED:
+            r["type"] = "float"
+    return {"tunables": tun, "insts": insts, "layers": layers, "redecl": redecl, "insitu": insitu,
+            "falsy_owner": rng.random() < 0.25 and not (insitu and any(x["kind"] == "robot" for x in insts))}
 
 
 def random_events(rng, shape):
     ni, ntn = len(shape["insts"]), len(shape["tunables"])
     ready = set()
     evs = []
+    if shape.get("insitu"):
+        # robotInit() binds every owner at once: NetworkTables-side writes/reads first, then all set-ups
+        for _ in range(rng.choice([0, 2, 5])):
+            i, t = rng.randint(1, ni), rng.randint(1, ntn)
+            evs.append({"e": "ntw", "i": i, "t": t, "vi": rng.randint(0, 2)} if rng.random() < 0.7 else
+                       {"e": "ntr", "i": i, "t": t})
+        order = list(range(1, ni + 1))
+        rng.shuffle(order)
+        for i in order:
+            evs.append({"e": "setup", "i": i})
+            ready.add(i)
     for _ in range(rng.choice([8, 16, 30])):
         r = rng.random()
         i = rng.randint(1, ni)
@@ -228,6 +366,8 @@ def run_trace(tid, shape, events):
     sh = json.loads(json.dumps(shape))
     for x, n in zip(sh["insts"], w.names):
         x["name"] = n
+    for tu, a in zip(sh["tunables"], w.attrs):
+        tu["attr"] = a
     return {"id": tid, "shape": sh, "steps": steps}
 
 
